@@ -131,3 +131,47 @@ error_msg = Unit(
 error_msg.spec_funcs = SPEC
 
 UNITS = [have, mustbe, decl_statement, error_msg]
+
+
+# ---------------------------------------------------------------------------------------------------------
+# C09/C17: comma-separated lists.  A sub-parser that succeeds consumes at least one token, does not start at EOF
+# and does not end on a COMMA (expressions and declarations end on a name, literal, ')' or ']').
+def _item_parser(name):
+    def factory(ref):
+        def call(ex, st, args, kw, node):
+            p0 = st.heap[ref.oid].f["pos"].e
+            p1 = z3.Int(fresh_name("pos_after_" + name))
+            ex.safety(st, "RuntimeError", z3.Bool(fresh_name(name + "_ok")), node, "sub-parser may reject")
+            st.assume(z3.And(p1 > p0, p0 < EOFPOS, TYP(p1 - 1) != z3.StringVal("COMMA"), TYP(p1 - 1) != z3.StringVal("EOF")))
+            _set_token(ex, st, ref, p1)
+            return st.alloc(HObj("AstNode", {}))
+        return VFun("Parser.%s[contract: consumes >= 1 token, does not end on a comma, may raise RuntimeError]" % name, call)
+    return factory
+
+
+def _list_unit(fname, cls, item, prop):
+    u = Unit(
+        prop=prop, name=fname, target="shroud/declast.py::%s.%s" % (cls, fname),
+        params={"self": PARSER}, defs=DEFS,
+        # called with the '(' as current token (peeked by the caller)
+        requires=["synced(self)", "self.token.typ == 'LPAREN'"] + STREAM,
+        callees=merged(HOOKS, {("Parser", "next"): _next, ("Parser", item): _item_parser(item), ("Parser", "error_msg"): _error_msg}),
+        callee_units={("Parser", "have"): have, ("Parser", "mustbe"): mustbe},
+        loops={0: {"inv": ["synced(self)", "self.pos >= 1",
+                           "TYP(self.pos - 1) == 'LPAREN' or TYP(self.pos - 1) == 'COMMA'",
+                           # a comma is followed by another item, never directly by the closing parenthesis
+                           "implies(TYP(self.pos - 1) == 'COMMA', self.token.typ != 'RPAREN')"],
+                   "decreases": "EOFPOS() + 1 - self.pos"}},
+        ensures=["synced(self)", "self.pos >= 2",
+                 # the list is closed by ')' and the token before it is not a ',': f(a,) is not silently accepted
+                 "TYP(self.pos - 1) == 'RPAREN'", "TYP(self.pos - 2) != 'COMMA'"],
+        raises=["RuntimeError", "NotImplementedError"],
+    )
+    u.spec_funcs = SPEC
+    u.list_kinds = {"params": "opaque"}
+    return u
+
+
+argument_list = _list_unit("argument_list", "ExprParser", "expression", "C09")
+parameter_list = _list_unit("parameter_list", "Parser", "declaration", "C09")
+LIST_UNITS = [argument_list, parameter_list]
